@@ -24,6 +24,10 @@ LEVEL = "model_checking"
 class StubFont:
     """Minimal glyph-order provider (gid <-> name) for table-level compile/decompile."""
 
+    lazy = False
+    recalcBBoxes = True
+    recalcTimestamp = False
+
     def __init__(self, n=65536):
         self.n = n
 
@@ -114,7 +118,10 @@ def gen_cmaps(chk, tlc_maps):
     thorough = chk.tier == "thorough"
     out = []
     for m in tlc_maps:  # TLC-enumerated small maps through every format that can hold them
-        for fmt in (4, 6, 12, 13):
+        fmts = (12, 13)
+        if max(m) <= 0xFFFF:  # formats 4/6 hold BMP codes only; a format-6 subtable has a 16-bit length
+            fmts = (4, 6, 12, 13) if max(m) - min(m) + 1 <= 32762 else (4, 12, 13)
+        for fmt in fmts:
             out.append(cmap_case(fmt, m, rng))
         if all(c < 256 and g < 256 for c, g in m.items()):
             out.append(cmap_case(0, m, rng))
@@ -194,6 +201,7 @@ def _font_with(glyphs, metrics):
     fb.setupHorizontalHeader(ascent=800, descent=-200)
     fb.setupNameTable({"familyName": "C02", "styleName": "Regular"})
     fb.setupOS2()
+    fb.font["OS/2"].xAvgCharWidth = 500  # int16 field; the mean of 65535-wide advances does not fit (not hmtx's business)
     fb.setupPost()
     return fb.font
 
@@ -281,6 +289,8 @@ def gen_glyphs(chk):
         instr = bytes(rng.getrandbits(8) for _ in range(rng.choice([0, 0, 1, 7])))
         overlap = rng.random() < 0.2
         cases.append((pts, on, ends, instr, overlap))
+    for ilen in (32766, 32767, 32768, 40000, 65535):  # instructionLength is a uint16 in the OpenType glyph header
+        cases.append(([(0, 0), (10, 0), (0, 10)], [1, 1, 1], [2], bytes(rng.getrandbits(8) for _ in range(ilen)), False))
     for pts, on, ends, instr, overlap in cases:
         for opt in (True, False):
             g = Glyph()
@@ -291,9 +301,14 @@ def gen_glyphs(chk):
             g.flags = array.array("B", fl)
             g.program = ttProgram.Program()
             g.program.fromBytecode(instr)
-            data = g.compile(gt, recalcBBoxes=True, optimizeSize=opt)
-            g2 = Glyph(data)
-            g2.expand(gt)
+            try:
+                data = g.compile(gt, recalcBBoxes=True, optimizeSize=opt)
+                g2 = Glyph(data)
+                g2.expand(gt)
+            except Exception as e:  # all generated glyphs are inside the glyf format's domain
+                what = "glyph:instructionLength>32767" if len(instr) > 32767 else "glyph"
+                out.append({"k": "raised", "what": what, "err": "%s: %s" % (type(e).__name__, e), "npts": len(pts), "ilen": len(instr)})
+                continue
             xs = [p[0] for p in pts]
             ys = [p[1] for p in pts]
             back = {"xs": [c[0] for c in g2.coordinates], "ys": [c[1] for c in g2.coordinates], "on": [f & 1 for f in g2.flags],
@@ -383,15 +398,20 @@ def gen_loca(chk):
                     glyphs["s%d" % i] = filler(22 + ln)
                 used = sum(((22 + ln + pad - 1) // pad * pad) for ln in small) if pad > 1 else sum(22 + ln for ln in small)
                 rest = tgt - used
-                if rest > 30:
-                    glyphs["big"] = filler(rest)
+                nb = 0
+                while rest > 30:  # fillers of at most 30000 bytes each (instructionLength is a 16-bit field)
+                    step = rest if rest <= 30000 else 30000 if rest - 30000 > 30 or pad > 1 else rest - 40
+                    step = step // pad * pad if pad > 1 and rest > 30000 else step
+                    glyphs["big%d" % nb] = filler(step)
+                    rest -= step
+                    nb += 1
                 font = _font_with(glyphs, {n: (500, 0) for n in glyphs})
                 font["glyf"].padding = pad
                 buf = io.BytesIO()
                 try:
                     font.save(buf)
                 except Exception as e:
-                    out.append({"k": "rt", "table": "loca-save", "c0": 1, "c1": 2, "err": type(e).__name__, "tgt": tgt, "pad": pad})
+                    out.append({"k": "raised", "what": "loca-save", "err": "%s: %s" % (type(e).__name__, e), "tgt": tgt, "pad": pad})
                     continue
                 c = R.parse(buf.getvalue())
                 t = c.fonts[0].tables
@@ -504,7 +524,7 @@ def gen_misc(chk):
         flags = struct.unpack(">H", tupledata[2:4])[0]
         coordb = tupledata[4 : 4 + 2 * len(axes)]
         private = bool(flags & 0x2000)
-        back_tv = decompileTupleVariation_(npts, [], "gvar", axes, tupledata, auxdata)
+        back_tv = decompileTupleVariation_(npts, [], None, "gvar", axes, tupledata, auxdata)
         allpts = len(pts) == npts
         if private:
             # auxdata = packed points, then packed x deltas and y deltas
@@ -527,10 +547,37 @@ def gen_misc(chk):
     return out
 
 
+_UNORDERED = {"cmap", "name", "kernsubtable"}  # parents whose children form a set (the encoder sorts them)
+
+
+def _canon_num(v):
+    try:
+        return repr(float(int(v, 0)))
+    except ValueError:
+        pass
+    try:
+        return repr(float(v))
+    except ValueError:
+        return v
+
+
+def _canon_el(el):
+    kids = [_canon_el(k) for k in el]
+    if el.tag in _UNORDERED:
+        kids.sort()
+    text = " ".join((el.text or "").split())
+    return (el.tag, tuple(sorted((k, _canon_num(v)) for k, v in el.attrib.items())), _canon_num(text) if text else "", tuple(kids))
+
+
 def _norm_xml(font, tag):
+    """canonical content of a decoded table: its TTX dump as a tree, numbers by value (post.italicAngle 0 == 0.0),
+    record sets sorted (cmap subtables, name records, kern pairs: the encoders sort them), comments dropped"""
+    from xml.etree import ElementTree as ET
+
     from .c01 import table_xml
 
-    return table_xml(font, tag)
+    root = ET.fromstring(table_xml(font, tag).split("?>", 1)[-1].split("</ttFont>")[0] + "</ttFont>")
+    return _canon_el(root)
 
 
 def gen_roundtrips(chk):
@@ -555,14 +602,17 @@ def gen_roundtrips(chk):
         fb.setupHorizontalHeader(ascent=800, descent=-200)
         fb.setupNameTable({"familyName": "RT é€\U0001D518", "styleName": "Regular"})
         fb.setupOS2(sTypoAscender=rng.randint(-500, 900), usWeightClass=rng.choice([1, 400, 1000]))
-        fb.setupPost(keepGlyphNames=rng.random() < 0.7)
+        fb.setupPost(keepGlyphNames=True)  # glyph names are how contents are compared; format 3 would rename them
         kinds = []
         try:
             if rng.random() < 0.6:
                 fb.setupFvar([("wght", 100, 400, 900, "Weight"), ("wdth", 50.5, 100, 200.25, "Width")][: rng.randint(1, 2)], [])
                 kinds.append("fvar")
             if "fvar" in fb.font and rng.random() < 0.6:
-                fb.setupAvar({"wght": {-1.0: -1.0, -0.5: rng.choice([-0.75, -0.25]), 0.0: 0.0, 0.5: rng.choice([0.25, 0.625]), 1.0: 1.0}})
+                av = fb.font["avar"] = newTable("avar")
+                av.majorVersion, av.minorVersion = 1, 0
+                av.segments = {a.axisTag: {-1.0: -1.0, 0.0: 0.0, 1.0: 1.0} for a in fb.font["fvar"].axes}
+                av.segments["wght"] = {-1.0: -1.0, -0.5: rng.choice([-0.75, -0.25]), 0.0: 0.0, 0.5: rng.choice([0.25, 0.625]), 1.0: 1.0}
                 kinds.append("avar")
             if rng.random() < 0.6 and len(names) > 3:
                 g = names[1:]
@@ -627,26 +677,26 @@ def run(chk):
     if not thorough:
         chk.rng.shuffle(tlc_maps)
         tlc_maps = tlc_maps[:250]
+    logging.getLogger("fontTools").setLevel(logging.ERROR)
     cases = []
-    cases += gen_cmaps(chk, tlc_maps)
-    cases += gen_hmtx(chk)
-    cases += gen_glyphs(chk)
-    cases += gen_loca(chk)
-    cases += gen_otl(chk, tlc_covs)
-    cases += gen_misc(chk)
-    cases += gen_roundtrips(chk)
+    for name, fn in (("cmap", lambda: gen_cmaps(chk, tlc_maps)), ("hmtx", lambda: gen_hmtx(chk)), ("glyph", lambda: gen_glyphs(chk)),
+                     ("loca", lambda: gen_loca(chk)), ("otl", lambda: gen_otl(chk, tlc_covs)), ("misc", lambda: gen_misc(chk)),
+                     ("roundtrips", lambda: gen_roundtrips(chk))):
+        got = fn()
+        chk.log("generated %d %s cases" % (len(got), name))
+        cases += got
     chk.count(len(cases))
     kinds = {}
     for t in cases:
         kinds[t["k"]] = kinds.get(t["k"], 0) + 1
-        if len(t.get("b", t.get("db", [0, 0]))) > 8 or t["k"] in ("rt", "loca"):
+        if len(t.get("b", t.get("db", [0, 0]))) > 8 or t["k"] in ("rt", "loca", "raised"):
             chk.nontriv(common.digest([t["k"], t.get("b"), t.get("c0"), t.get("db"), t.get("table"), t.get("font"), t.get("tgt"), t.get("pad")]))
     chk.notes["cases_by_kind"] = kinds
     for k in kinds:
         ex = next(t for t in cases if t["k"] == k)
         chk.sample({a: (b if not isinstance(b, list) or len(b) <= 40 else b[:40] + ["..."]) for a, b in ex.items()}, limit=12)
     chk.log("judging %d cases %s" % (len(cases), kinds))
-    rej = chk.judge("Trace_C02", cases, chunk=1500, timeout=1500)
+    rej = chk.judge("Trace_C02", cases, chunk=1500, timeout=1500, env={"JAVA_TOOL_OPTIONS": "-Xss256m"})  # decoders recurse once per point
     for t, clause in rej:
         c = clause[0]
         desc = {a: (b if not isinstance(b, list) or len(b) <= 30 else b[:30] + ["..."]) for a, b in t.items()}
